@@ -125,10 +125,14 @@ Proof.
 Qed.
 
 Example ex_proof_exists :
-  exists tbl n, explain_ref_fuel 5 [ex_rule] ex_base ex_store = Some tbl /\
-                find_proof tbl (2, [CNum 1]) = Some n /\
-                check_proof [ex_rule] ex_base ex_store (2, [CNum 1]) n = true.
-Proof. eexists. eexists. split; [vm_compute; reflexivity|]. split; vm_compute; reflexivity. Qed.
+  match explain_ref_fuel 5 [ex_rule] ex_base ex_store with
+  | Some tbl => match find_proof tbl (2, [CNum 1]) with
+                | Some n => check_proof [ex_rule] ex_base ex_store (2, [CNum 1]) n
+                | None => false
+                end
+  | None => false
+  end = true.
+Proof. vm_compute. reflexivity. Qed.
 
 (* ---- witnesses of the defects fixed in provenance/provenance.go: what the pre-fix
    code returned is rejected by the judge of the correspondence (code 3 = a complete
@@ -150,9 +154,11 @@ Proof. vm_compute. reflexivity. Qed.
 Print Assumptions f9_no_proof_refuted.
 
 Example f9_has_proof :
-  exists n, find_proof (explain_ref f9_prog f9_base f9_store) (3, [CNum 1]) = Some n /\
-            check_proof f9_prog f9_base f9_store (3, [CNum 1]) n = true.
-Proof. eexists. split; vm_compute; reflexivity. Qed.
+  match find_proof (explain_ref f9_prog f9_base f9_store) (3, [CNum 1]) with
+  | Some n => check_proof f9_prog f9_base f9_store (3, [CNum 1]) n
+  | None => false
+  end = true.
+Proof. vm_compute. reflexivity. Qed.
 
 (* F9b: p1(1). p0(2). p1(X) :- p0(X).  - the initial fact p1(1) is proved by a leaf *)
 Theorem f9b_no_proof_refuted :
